@@ -68,7 +68,7 @@ def GenerateRxnNet(initial_reactant, reaction_rules):
     # set up reactions
     if not isinstance(reaction_rules, list):
         reaction_rules = [reaction_rules]
-    if isinstance(reaction_rules[0], str):
+    if reaction_rules and isinstance(reaction_rules[0], str):
         for i in range(0, len(reaction_rules)):
             try:
                 reaction_rules[i] = Read(reaction_rules[i])
